@@ -2,6 +2,8 @@ import Gtree.Lemmas.Distinct
 import Gtree.Lemmas.Output
 import Gtree.Lemmas.Validate
 import Gtree.Model.Programmable
+import Gtree.Lemmas.Arena
+import Gtree.Lemmas.MergeDistinct
 /-
   C03 — programmatically built trees behave like the equivalent Markdown.
 -/
@@ -90,4 +92,31 @@ namespace Gtree
 /-- non-vacuity: a three-level tree with distinct sibling names -/
 example : DistinctT (.mk [0x72] [.mk [0x61] [.mk [0x63] []], .mk [0x62] []]) := by
   simp [DistinctT, DistinctL, T.name]
+end Gtree
+
+namespace Gtree
+
+/-- whatever sequence of NewRoot / Add calls built the arena, the tree below any node has pairwise distinct
+    sibling names at every level: the hypothesis `DistinctT` of the equivalence theorems above holds for
+    every tree a client can hand to a From-Root entry point (arena invariant, `Lemmas/Arena.lean`) -/
+theorem C03_built_trees_distinct (ops : List BuildOp) (id : Nat) :
+    DistinctT ((ops.foldl Store.apply {}).tree id) :=
+  Store.reachable_tree_distinct ops id
+
+/-- the same for what the generator builds from a document: merged roots have distinct sibling names -/
+theorem C03_generated_trees_distinct (t : T) : DistinctT (mergeRoot t) :=
+  mergeRoot_distinctT t
+
+/-- From-Root text output of any tree built by NewRoot / Add equals the output of a Markdown spelling of it -/
+theorem C03_built_eq_markdown_text (ops : List BuildOp) (id : Nat) (s : Spelling) (fmt : Fmt) (wf : WFault)
+    (hv : s.Valid (items 1 [(ops.foldl Store.apply {}).tree id])) :
+    outputIter (textJob fmt) { doc := spell [(ops.foldl Store.apply {}).tree id] s } wf
+      = outputRootText fmt ((ops.foldl Store.apply {}).tree id) wf :=
+  C03_root_eq_markdown_text _ (C03_built_trees_distinct ops id) s fmt wf hv
+
+/-- non-vacuity: NewRoot r; Add r a; Add r b; Add r a (existing); Add a c -/
+example : ([BuildOp.newRoot [0x72], .add 0 [0x61], .add 0 [0x62], .add 0 [0x61], .add 1 [0x63]].foldl Store.apply {}).tree 0
+    = .mk [0x72] [.mk [0x61] [.mk [0x63] []], .mk [0x62] []] := by
+  rfl
+
 end Gtree
